@@ -1606,7 +1606,7 @@ func C01(c *core.Ctx, replay string) {
 		var pool []rbVec
 		for _, v := range light {
 			// (mostly the unsigned streamed encoding: its decoder hands the body on in pieces)
-			if v.D.Enc.Kind == "stream-unsigned-trailer" || (strings.HasPrefix(v.D.Enc.Kind, "stream-") && len(pool)%4 == 3) {
+			if v.D.Enc.Kind == "stream-unsigned-trailer" || (strings.HasPrefix(v.D.Enc.Kind, "stream-") && len(pool)%8 == 7) {
 				pool = append(pool, v)
 			}
 		}
@@ -1616,7 +1616,7 @@ func C01(c *core.Ctx, replay string) {
 		}
 		cf := rbCfg{Meta: "xattr", Tmp: "otmp", Vdir: "off", Bver: "unset"}
 		var crowd []rbCase
-		for i := 0; i < c.Pick(96, 480); i++ {
+		for i := 0; i < c.Pick(240, 640); i++ {
 			v := pool[c.Rng.Intn(len(pool))]
 			d := v.D
 			d.Size = []string{"262145", "786433"}[i%2]
